@@ -476,6 +476,11 @@ func (x *Exec) specIndex(sc *specCtx, base, idx Value) Value {
 		if strings.HasPrefix(string(b.T.Sort), "(Array") {
 			return Scalar{sel(b.T, idx.(Scalar).T), nil}
 		}
+		if b.T.Sort == SStr {
+			// s[i]: the i-th byte of a string
+			x.sym.declareFun("strat", []Sort{SStr, SInt}, SInt)
+			return Scalar{mk(SInt, "strat", b.T, idx.(Scalar).T), types.Typ[types.Uint8]}
+		}
 	}
 	panic(engineErr("cannot index %T in spec", base))
 }
